@@ -2,28 +2,58 @@ From Cmr Require Import Base Det BaseProofs TuModel GraphModel TuNetModel.
 From Cmr Require NetworkTU.
 Local Open Scope Z_scope.
 
-(* an accepted record whose witness certifies a network matrix: the call succeeded, the matrix IS totally unimodular by
-   the definition-level oracle (for every size: NetworkTU.network_cert_tu_bf), and a written verdict says so *)
-Theorem judge_tu_net_sound : forall rec cfg m n M rc v sub G f c r rest,
-  tu_net_input rec = Some ((cfg, (m, n, M), rc, v, sub, WGraph G f c r), rest) ->
-  check_network_cert m n M G r f c = true ->
+From Cmr Require SpTU.
+
+Lemma tu_certified_tu_bf : forall m n M w, tu_certified m n M w = true -> tu_bf m n M = true.
+Proof.
+  intros m n M w H. destruct w as [|G f c r|rs cs]; cbn [tu_certified] in H.
+  - apply andb_true_iff in H. destruct H as [HT HS]. apply SpTU.sp_ternary_TU_nowf; assumption.
+  - eapply NetworkTU.network_cert_tu_bf; exact H.
+  - discriminate H.
+Qed.
+
+(* an accepted record that certifies its matrix (network witness, or series-parallel reducible ternary matrix): the call
+   succeeded, the matrix IS totally unimodular by the definition-level oracle (for every size), and a written verdict says so *)
+Theorem judge_tu_net_sound_gen : forall rec cfg m n M rc v sub w rest,
+  tu_net_input rec = Some ((cfg, (m, n, M), rc, v, sub, w), rest) ->
+  tu_certified m n M w = true ->
   judge_tu_net rec = 0 ->
   rc = 0 /\ tu_bf m n M = true /\ (v = 2 -> cfg_stopflags cfg = true) /\ (v <> 2 -> v = 1 /\ sub = None).
 Proof.
-  intros rec cfg m n M rc v sub G f c r rest Hdec Hcert HJ.
+  intros rec cfg m n M rc v sub w rest Hdec Hcert HJ.
   unfold judge_tu_net in HJ. rewrite Hdec in HJ. rewrite Hcert in HJ. cbn [negb] in HJ.
+  pose proof (tu_certified_tu_bf m n M w Hcert) as HTU.
   destruct ((rc =? 0) && (v =? 1) && (match sub with None => true | Some _ => false end)) eqn:Efast.
   { apply andb_true_iff in Efast. destruct Efast as [Efast Es]. apply andb_true_iff in Efast. destruct Efast as [E0 E1].
     apply Z.eqb_eq in E0, E1. subst rc v. split; [reflexivity|].
-    split; [eapply NetworkTU.network_cert_tu_bf; exact Hcert|].
+    split; [exact HTU|].
     split; [intros H; discriminate H|]. intros _. split; [reflexivity|]. destruct sub; [discriminate|reflexivity]. }
   destruct (rc =? 0) eqn:Erc; cbn [negb] in HJ; [|discriminate].
   apply Z.eqb_eq in Erc. split; [exact Erc|].
-  split; [eapply NetworkTU.network_cert_tu_bf; exact Hcert|].
+  split; [exact HTU|].
   destruct (v =? 2) eqn:E2.
   - apply Z.eqb_eq in E2. split; [intros _; destruct (cfg_stopflags cfg); [reflexivity|discriminate] | intros H; contradiction].
   - apply Z.eqb_neq in E2. split; [intros H; contradiction|]. intros _.
     destruct (v =? 1) eqn:E1; cbn [negb] in HJ; [|discriminate].
     apply Z.eqb_eq in E1. split; [exact E1|]. destruct sub; [discriminate|reflexivity].
 Qed.
+
+Theorem judge_tu_net_sound : forall rec cfg m n M rc v sub G f c r rest,
+  tu_net_input rec = Some ((cfg, (m, n, M), rc, v, sub, WGraph G f c r), rest) ->
+  check_network_cert m n M G r f c = true ->
+  judge_tu_net rec = 0 ->
+  rc = 0 /\ tu_bf m n M = true /\ (v = 2 -> cfg_stopflags cfg = true) /\ (v <> 2 -> v = 1 /\ sub = None).
+Proof. intros. eapply judge_tu_net_sound_gen; eauto. Qed.
+
+(* the same for a record without witness whose {-1,0,1} matrix is series-parallel *)
+Theorem judge_tu_net_sound_sp : forall rec cfg m n M rc v sub rest,
+  tu_net_input rec = Some ((cfg, (m, n, M), rc, v, sub, WNone), rest) ->
+  is_ternary M = true -> SpModel.sp_greedy true m n M = true ->
+  judge_tu_net rec = 0 ->
+  rc = 0 /\ tu_bf m n M = true /\ (v = 2 -> cfg_stopflags cfg = true) /\ (v <> 2 -> v = 1 /\ sub = None).
+Proof.
+  intros rec cfg m n M rc v sub rest Hdec HT HS HJ. eapply judge_tu_net_sound_gen; eauto.
+  cbn [tu_certified]. rewrite HT, HS. reflexivity.
+Qed.
 Print Assumptions judge_tu_net_sound.
+Print Assumptions judge_tu_net_sound_sp.
